@@ -37,13 +37,29 @@ import (
 //           interval, so equal neighbours (and min == max) give that value
 //           exactly;
 //           identical result for the given order, another permutation, the
-//           sorted data with Sorted=true and with Sorted=false;
+//           sorted data with Sorted=true and with Sorted=false, and for three
+//           Sample values that went through the library itself: s.Copy(),
+//           s.Copy() then Sort(), and a hand-built sample after its own
+//           Sort() (whatever state only the library can put into a Sample is
+//           then present);
 //           IQR() == Quantile(.75) - Quantile(.25) of the same sample
 //           (bit-exact, unweighted and weighted).
 //   M-hist  the same backing arrays overwritten in place with another sample
 //           of equal length (other weights), then two samples alternating
 //           through one buffer: every answer is judged against the data the
-//           buffer holds at the time of the call.
+//           buffer holds at the time of the call. Partial histories
+//           (weighted): only the Weights array overwritten (Xs untouched),
+//           only the Xs array overwritten (Weights untouched), a second
+//           Sample value sharing the Xs slice with other Weights (or with
+//           none) and one sharing the Weights slice with other Xs, queried
+//           in turn with the owner; run on the worker pool and once more on
+//           a single goroutine.
+//   M-near  unweighted: every break point is also approached on a ladder
+//           b +- 2^k ulp, k = 0..35 (same tolerance: the interpolant is
+//           continuous, a result that is flat near a break point is off by
+//           (h-j) G); weighted: every probed cumulative-weight fraction f is
+//           also approached at f +- 2 rel 2^k, k = 0..19 (rel the ambiguity
+//           window, i.e. about 2e-12 .. 1e-6): outside the window, one answer.
 //   M-scale weighted: whole weight vectors times 2^+-40, 2^+-200 (exact): the
 //           expected answers are those of the unscaled weights.
 //   M-guard Xs and Weights (with canaries before the data and in the spare
@@ -71,6 +87,16 @@ type c10Case struct {
 	Qs2   []mon.F `json:"qs2,omitempty"`
 	WExp2 int     `json:"wexp2,omitempty"`
 	Alt   int     `json:"alt,omitempty"`
+	// Partial history (weighted, Part != 0, len(Xs2)==len(Ws2)==len(Xs)):
+	// after the queries on (Xs,Ws), on every presentation in turn: only the
+	// Weights array is overwritten in place (with Ws2 * 2^WExp2, Xs
+	// untouched); a second Sample value shares the Xs slice with another
+	// Weights slice, and an unweighted one shares it too; only the Xs array
+	// is overwritten (with Xs2, Weights untouched); a second Sample value
+	// shares the Weights slice with another Xs slice. Queried at Qs2 / its
+	// first interior points; every answer is judged against what the queried
+	// Sample value holds at the time of the call.
+	Part int `json:"part,omitempty"`
 }
 
 func init() {
@@ -100,6 +126,10 @@ type c10Guarded struct {
 	snapX  []uint64
 	snapW  []uint64
 	sorted bool
+	n      int // number of data points
+	offX   int // where the data start in bufX / bufW (0 for arrays the library allocated)
+	offW   int
+	ak     int // arrangement (0 given, 1 sorted, 3 permuted) a history step loads into it
 }
 
 func c10Guard(vals []float64) (view, buf []float64, snap []uint64) {
@@ -118,7 +148,7 @@ func c10Guard(vals []float64) (view, buf []float64, snap []uint64) {
 }
 
 func c10Present(name string, xs, ws []float64, sorted bool) *c10Guarded {
-	g := &c10Guarded{name: name, sorted: sorted}
+	g := &c10Guarded{name: name, sorted: sorted, n: len(xs), offX: c10Pad, offW: c10Pad}
 	g.s.Xs, g.bufX, g.snapX = c10Guard(xs)
 	if ws != nil {
 		g.s.Weights, g.bufW, g.snapW = c10Guard(ws)
@@ -127,19 +157,83 @@ func c10Present(name string, xs, ws []float64, sorted bool) *c10Guarded {
 	return g
 }
 
+func c10Snap(buf []float64) []uint64 {
+	snap := make([]uint64, len(buf))
+	for i, v := range buf {
+		snap[i] = math.Float64bits(v)
+	}
+	return snap
+}
+
+// c10Adopt wraps a Sample value the LIBRARY produced (Copy, Sort): the whole
+// struct value is kept, including whatever unexported state the library put
+// into it; its arrays are watched as they are (no canaries).
+func c10Adopt(name string, p *stats.Sample) *c10Guarded {
+	g := &c10Guarded{name: name, s: *p, sorted: p.Sorted, n: len(p.Xs)}
+	g.bufX, g.snapX = g.s.Xs, c10Snap(g.s.Xs)
+	if g.s.Weights != nil {
+		g.bufW, g.snapW = g.s.Weights, c10Snap(g.s.Weights)
+	}
+	return g
+}
+
+// resnap re-arms the guard after a permitted change of the arrays.
+func (g *c10Guarded) resnap() {
+	for i, v := range g.bufX {
+		g.snapX[i] = math.Float64bits(v)
+	}
+	for i, v := range g.bufW {
+		g.snapW[i] = math.Float64bits(v)
+	}
+	g.sorted = g.s.Sorted
+}
+
+// shareXs is a second Sample value over the SAME Xs slice with its own
+// Weights (nil: an unweighted view).
+func (g *c10Guarded) shareXs(name string, ws []float64) *c10Guarded {
+	t := &c10Guarded{name: name, sorted: g.s.Sorted, n: g.n, offX: g.offX, offW: c10Pad, ak: g.ak}
+	t.s.Xs, t.bufX, t.snapX = g.s.Xs, g.bufX, g.snapX
+	if ws != nil {
+		t.s.Weights, t.bufW, t.snapW = c10Guard(ws)
+	}
+	t.s.Sorted = g.s.Sorted
+	return t
+}
+
+// shareWs is a second Sample value over the SAME Weights slice with its own Xs.
+func (g *c10Guarded) shareWs(name string, xs []float64) *c10Guarded {
+	t := &c10Guarded{name: name, sorted: g.s.Sorted, n: g.n, offX: c10Pad, offW: g.offW, ak: g.ak}
+	t.s.Xs, t.bufX, t.snapX = c10Guard(xs)
+	t.s.Weights, t.bufW, t.snapW = g.s.Weights, g.bufW, g.snapW
+	t.s.Sorted = g.s.Sorted
+	return t
+}
+
+// rearmed is a fresh private hand-built copy of what g holds now (used after
+// a reported modification so that one defect is not reported once per call).
+func (g *c10Guarded) rearmed() *c10Guarded {
+	var ws []float64
+	if g.s.Weights != nil {
+		ws = append([]float64(nil), g.s.Weights...)
+	}
+	r := c10Present(g.name, append([]float64(nil), g.s.Xs...), ws, g.sorted)
+	r.ak = g.ak
+	return r
+}
+
 // intact reports the first modified cell, if any.
 func (g *c10Guarded) intact() (bool, string) {
 	for i, b := range g.snapX {
 		if math.Float64bits(g.bufX[i]) != b {
-			return false, fmt.Sprintf("Xs backing cell %d (data starts at %d, len %d) changed from %v to %v", i, c10Pad, len(g.s.Xs), math.Float64frombits(b), g.bufX[i])
+			return false, fmt.Sprintf("Xs backing cell %d (data starts at %d, len %d) changed from %v to %v", i, g.offX, len(g.s.Xs), math.Float64frombits(b), g.bufX[i])
 		}
 	}
 	for i, b := range g.snapW {
 		if math.Float64bits(g.bufW[i]) != b {
-			return false, fmt.Sprintf("Weights backing cell %d (data starts at %d, len %d) changed from %v to %v", i, c10Pad, len(g.s.Weights), math.Float64frombits(b), g.bufW[i])
+			return false, fmt.Sprintf("Weights backing cell %d (data starts at %d, len %d) changed from %v to %v", i, g.offW, len(g.s.Weights), math.Float64frombits(b), g.bufW[i])
 		}
 	}
-	if len(g.s.Xs) != len(g.snapX)-2*c10Pad || g.s.Sorted != g.sorted {
+	if len(g.s.Xs) != g.n || (g.bufW != nil && len(g.s.Weights) != g.n) || (g.bufW == nil) != (g.s.Weights == nil) || g.s.Sorted != g.sorted {
 		return false, "Sample header changed"
 	}
 	return true, ""
@@ -182,22 +276,31 @@ func c10Judge(w *mon.W, c c10Case) {
 // load overwrites the presented sample IN PLACE (same backing arrays, same
 // slice headers) with other data of the same length and re-arms the guard.
 func (g *c10Guarded) load(xs, ws []float64) {
+	g.loadX(xs)
+	if g.bufW != nil {
+		g.loadW(ws)
+	}
+}
+
+// loadX overwrites only the values, loadW only the weights.
+func (g *c10Guarded) loadX(xs []float64) {
 	copy(g.s.Xs, xs)
 	for i, v := range g.bufX {
 		g.snapX[i] = math.Float64bits(v)
 	}
-	if g.bufW != nil {
-		copy(g.s.Weights, ws)
-		for i, v := range g.bufW {
-			g.snapW[i] = math.Float64bits(v)
-		}
+}
+
+func (g *c10Guarded) loadW(ws []float64) {
+	copy(g.s.Weights, ws)
+	for i, v := range g.bufW {
+		g.snapW[i] = math.Float64bits(v)
 	}
 }
 
 // c10Plain strips the history of a case: a violation in the first phase does
 // not depend on what is presented afterwards.
 func c10Plain(c c10Case) c10Case {
-	c.Xs2, c.Ws2, c.Qs2, c.Alt, c.WExp2 = nil, nil, nil, 0, 0
+	c.Xs2, c.Ws2, c.Qs2, c.Alt, c.WExp2, c.Part = nil, nil, nil, 0, 0, 0
 	return c
 }
 
@@ -259,6 +362,69 @@ func (d *c10UData) arr(k int) []float64 {
 
 var c10PresNames = []string{"given order, Sorted=false", "sorted data, Sorted=true", "sorted data, Sorted=false", "another permutation, Sorted=false"}
 
+// c10BuildPres presents one data set in every way the monitor knows: four
+// structs filled in by hand and three Sample values that went through the
+// library's own Copy / Sort (so that whatever state only the library can put
+// into a Sample is present when Quantile runs). arr(k) is the arrangement k of
+// the data (0 given, 1 and 2 sorted, 3 permuted). The sources of the
+// library-built presentations are private copies.
+func c10BuildPres(w *mon.W, arr func(k int) (xs, ws []float64), permSeed uint64, sub func(...float64) c10Case) []*c10Guarded {
+	pres := make([]*c10Guarded, 0, 7)
+	for k := 0; k < 4; k++ {
+		ax, aw := arr(k)
+		g := c10Present(c10PresNames[k], ax, aw, k == 1)
+		g.ak = k
+		if k == 2 {
+			g.ak = 1
+		}
+		pres = append(pres, g)
+	}
+	build := func(name, class string, srcK int, sorts bool, f func(src *c10Guarded) *c10Guarded) {
+		ax, aw := arr(srcK)
+		src := c10Present(name, ax, aw, srcK == 1)
+		var g *c10Guarded
+		w.Eval("Copy/Sort(building a presentation)")
+		if p, v := mon.Call(func() { g = f(src) }); p {
+			w.Violate("panic", fmt.Sprintf("building the presentation %q of n=%d panicked: %v", name, len(ax), v), sub())
+			return
+		}
+		g.name = name
+		switch {
+		case g.s.Sorted:
+			g.ak = 1
+		case sorts:
+			// Sort left the flag unset: nothing says how the data are
+			// arranged now; with the flag unset any arrangement is valid
+			g.ak = 0
+			g.load(arr(0))
+		default:
+			g.ak = srcK
+		}
+		w.Note(class)
+		pres = append(pres, g)
+	}
+	if permSeed>>60&1 == 0 {
+		build("library Copy() of the given-order sample", "library-built(Copy)", 0, false, func(src *c10Guarded) *c10Guarded {
+			return c10Adopt("", src.s.Copy())
+		})
+	} else {
+		build("library Copy() of the sorted, Sorted=true sample", "library-built(Copy)", 1, false, func(src *c10Guarded) *c10Guarded {
+			return c10Adopt("", src.s.Copy())
+		})
+	}
+	build("library Copy() then Sort() of an unsorted-flag sample", "library-built(Copy+Sort)", []int{3, 0}[permSeed>>61&1], true, func(src *c10Guarded) *c10Guarded {
+		p := src.s.Copy()
+		p.Sort()
+		return c10Adopt("", p)
+	})
+	build("hand-built Sorted=false sample after its own Sort()", "library-built(Sort in place)", []int{0, 3}[permSeed>>62&1], true, func(src *c10Guarded) *c10Guarded {
+		src.s.Sort()
+		src.resnap()
+		return src
+	})
+	return pres
+}
+
 func c10JudgeUnweighted(w *mon.W, c c10Case) {
 	xs := mon.Un(c.Xs)
 	n := len(xs)
@@ -279,18 +445,13 @@ func c10JudgeUnweighted(w *mon.W, c c10Case) {
 	w.HitIf(n > 1 && (d.min > 1e307 || d.max < -1e307), "huge-same-sign(|x|>1e307)")
 	w.Note("unweighted")
 
-	pres := make([]*c10Guarded, 4)
-	kind := map[*c10Guarded]int{}
-	for k := range pres {
-		pres[k] = c10Present(c10PresNames[k], d.arr(k), nil, k == 1)
-		kind[pres[k]] = k
-	}
 	plain := c10Plain(c)
 	subA := func(qq ...float64) c10Case {
 		s := plain
 		s.Qs = mon.Fs(qq)
 		return s
 	}
+	pres := c10BuildPres(w, func(k int) ([]float64, []float64) { return d.arr(k), nil }, c.PermSeed, subA)
 	c10UPhase(w, d, c10SortedQs(c.Qs), pres, subA, "")
 
 	// history: the same buffers, other contents
@@ -299,7 +460,7 @@ func c10JudgeUnweighted(w *mon.W, c c10Case) {
 		whole := func(...float64) c10Case { return c }
 		w.Hit("buffer-reuse(in-place overwrite)")
 		for _, g := range pres {
-			g.load(d2.arr(kind[g]), nil)
+			g.load(d2.arr(g.ak), nil)
 		}
 		c10UPhase(w, d2, c10SortedQs(c.Qs2), pres, whole, c10TagReuse)
 		// two samples alternating through each buffer in turn; every
@@ -309,9 +470,9 @@ func c10JudgeUnweighted(w *mon.W, c c10Case) {
 			aq := c10AltQs(c.Qs2)
 			for _, g := range pres {
 				for r := 0; r < c.Alt && r < 8; r++ {
-					g.load(d.arr(kind[g]), nil)
+					g.load(d.arr(g.ak), nil)
 					c10UPhase(w, d, aq, []*c10Guarded{g}, whole, c10TagAlt)
-					g.load(d2.arr(kind[g]), nil)
+					g.load(d2.arr(g.ak), nil)
 					c10UPhase(w, d2, aq, []*c10Guarded{g}, whole, c10TagAlt)
 				}
 			}
@@ -346,7 +507,7 @@ func c10UPhase(w *mon.W, d *c10UData, qs []float64, pres []*c10Guarded, sub func
 	min, max := d.min, d.max
 	rearm := func(g *c10Guarded) {
 		// re-arm so that one defect is not reported once per later call
-		*g = *c10Present(g.name, append([]float64(nil), g.s.Xs...), nil, g.sorted)
+		*g = *g.rearmed()
 	}
 	// call performs one guarded Quantile call on presentation g
 	call := func(g *c10Guarded, q float64) (float64, bool) {
@@ -382,6 +543,12 @@ func c10UPhase(w *mon.W, d *c10UData, qs []float64, pres []*c10Guarded, sub func
 					b, _ := ref.BreakQ(n, j)
 					if q == b || q == math.Nextafter(b, 2) || q == math.Nextafter(b, -1) {
 						w.Hit("q-at-break(+-1ulp)")
+						break
+					}
+					// both are positive floats: the difference of their bit
+					// patterns is their distance in ulps
+					if dist := int64(math.Float64bits(q)) - int64(math.Float64bits(b)); (dist > 1 && dist <= 1<<35) || (dist < -1 && dist >= -(1<<35)) {
+						w.Hit("q-near-break(2..2^35 ulp)")
 						break
 					}
 				}
@@ -509,6 +676,7 @@ type c10WData struct {
 	rel                    float64
 	strict                 bool // small integer weights (times a power of two): dyadic q are judged without a window
 	intW                   bool
+	cumF                   []float64 // cumulative-weight fractions, rounded (classes only)
 }
 
 // c10Scale returns ws * 2^e and whether every product is exact, finite and
@@ -533,12 +701,38 @@ func c10NewWData(xs, base []float64, wexp int, permSeed uint64) *c10WData {
 		return nil
 	}
 	ws, exact := c10Scale(base, wexp)
+	// With small integer weights (times an exact power of two) and a dyadic
+	// q every quantity of the rule (q*W, the cumulative weights, their
+	// differences) is exactly representable, so no rounding can excuse a
+	// wrong side of a tie: the statement's "exceeds" is then judged strictly
+	// (no ambiguity window).
+	strict := exact && n <= 1<<10
+	for _, x := range base {
+		if x != math.Floor(x) || x < 0 || x > 1<<20 {
+			strict = false
+		}
+	}
+	return c10BuildWData(xs, ws, strict, permSeed)
+}
+
+// c10BuildWData: ws are the weights as presented (already scaled).
+func c10BuildWData(xs, ws []float64, strict bool, permSeed uint64) *c10WData {
+	n := len(xs)
+	if len(ws) != n {
+		return nil
+	}
 	for _, wt := range ws {
 		if !(wt > 0) || math.IsInf(wt, 0) {
 			return nil
 		}
 	}
-	d := &c10WData{xs: xs, ws: ws, wq: ref.NewWQ(xs, ws), rel: 1e-12 + 16*float64(n)*c10Eps}
+	d := &c10WData{xs: xs, ws: ws, wq: ref.NewWQ(xs, ws), rel: 1e-12 + 16*float64(n)*c10Eps, strict: strict}
+	tw, _ := d.wq.W.Float64()
+	d.cumF = make([]float64, len(d.wq.Cum))
+	for k, cw := range d.wq.Cum {
+		f, _ := cw.Float64()
+		d.cumF[k] = f / tw
+	}
 	// sorted presentation (stable: the reference side's own ordering)
 	idx := make([]int, n)
 	for i := range idx {
@@ -554,18 +748,21 @@ func c10NewWData(xs, base []float64, wexp int, permSeed uint64) *c10WData {
 		}
 	}
 	d.px, d.pw = c10Permute(xs, ws, permSeed)
-	// With small integer weights (times an exact power of two) and a dyadic
-	// q every quantity of the rule (q*W, the cumulative weights, their
-	// differences) is exactly representable, so no rounding can excuse a
-	// wrong side of a tie: the statement's "exceeds" is then judged strictly
-	// (no ambiguity window).
-	d.strict = exact && n <= 1<<10
-	for _, x := range base {
-		if x != math.Floor(x) || x < 0 || x > 1<<20 {
-			d.strict = false
+	return d
+}
+
+// besideCum: q is within 1e-6 of a cumulative-weight fraction without being
+// (to rounding) that fraction.
+func (d *c10WData) besideCum(q float64) bool {
+	k := sort.SearchFloat64s(d.cumF, q)
+	for _, j := range []int{k - 1, k} {
+		if j >= 0 && j < len(d.cumF) {
+			if dist := math.Abs(q - d.cumF[j]); dist > d.rel && dist <= 1e-6 {
+				return true
+			}
 		}
 	}
-	return d
+	return false
 }
 
 func (d *c10WData) arr(k int) (xs, ws []float64) {
@@ -612,20 +809,19 @@ func c10JudgeWeighted(w *mon.W, c c10Case) {
 	w.HitIf(c.WExp <= -40, "weights-scaled-down(2^-40|2^-200)")
 	w.HitIf(c.WExp >= 40, "weights-scaled-up(2^40|2^200)")
 
-	pres := make([]*c10Guarded, 4)
-	kind := map[*c10Guarded]int{}
-	for k := range pres {
-		ax, aw := d.arr(k)
-		pres[k] = c10Present(c10PresNames[k], ax, aw, k == 1)
-		kind[pres[k]] = k
-	}
 	plain := c10Plain(c)
 	subA := func(qq ...float64) c10Case {
 		s := plain
 		s.Qs = mon.Fs(qq)
 		return s
 	}
+	pres := c10BuildPres(w, d.arr, c.PermSeed, subA)
 	c10WPhase(w, d, c10SortedQs(c.Qs), pres, subA, "")
+
+	if c.Part != 0 && len(c.Xs2) == n && len(c.Ws2) == n {
+		c10WPartial(w, c, d, pres)
+		return
+	}
 
 	if len(c.Xs2) == n {
 		d2 := c10NewWData(mon.Un(c.Xs2), mon.Un(c.Ws2), c.WExp2, c.PermSeed^0x9e3779b97f4a7c15)
@@ -633,16 +829,16 @@ func c10JudgeWeighted(w *mon.W, c c10Case) {
 			whole := func(...float64) c10Case { return c }
 			w.Hit("buffer-reuse-weighted(in-place overwrite)")
 			for _, g := range pres {
-				g.load(d2.arr(kind[g]))
+				g.load(d2.arr(g.ak))
 			}
 			c10WPhase(w, d2, c10SortedQs(c.Qs2), pres, whole, c10TagReuse)
 			if c.Alt > 0 {
 				aq := c10AltQs(c.Qs2)
 				for _, g := range pres {
 					for r := 0; r < c.Alt && r < 8; r++ {
-						g.load(d.arr(kind[g]))
+						g.load(d.arr(g.ak))
 						c10WPhase(w, d, aq, []*c10Guarded{g}, whole, c10TagAlt)
-						g.load(d2.arr(kind[g]))
+						g.load(d2.arr(g.ak))
 						c10WPhase(w, d2, aq, []*c10Guarded{g}, whole, c10TagAlt)
 					}
 				}
@@ -654,11 +850,90 @@ func c10JudgeWeighted(w *mon.W, c c10Case) {
 	w.Distinct(mon.NewHasher().Fs(xs).Fs(d.ws).Fs(c10SortedQs(c.Qs)).Sum())
 }
 
+const (
+	c10TagPrime  = " [before a partial overwrite]"
+	c10TagWOnly  = " [only the Weights array overwritten in place, Xs untouched]"
+	c10TagXOnly  = " [only the Xs array overwritten in place, Weights untouched]"
+	c10TagShareX = " [a second Sample value sharing the Xs slice, with its own Weights]"
+	c10TagShareW = " [a second Sample value sharing the Weights slice, with its own Xs]"
+	c10TagOwner  = " [queried in turn with a second Sample value that shares one of its slices]"
+	c10TagUView  = " [an unweighted Sample value sharing the Xs slice of a weighted one]"
+)
+
+// c10WPartial is the partial history of a weighted case (see c10Case.Part).
+// d is the data set every presentation of pres holds on entry.
+func c10WPartial(w *mon.W, c c10Case, d *c10WData, pres []*c10Guarded) {
+	xs2 := mon.Un(c.Xs2)
+	dA := c10NewWData(d.xs, mon.Un(c.Ws2), c.WExp2, c.PermSeed) // same values (same arrangements), other weights
+	if dA == nil {
+		return
+	}
+	sx2 := append([]float64(nil), xs2...)
+	sort.Float64s(sx2)
+	du := c10NewUData(d.xs, c.PermSeed)
+	whole := func(...float64) c10Case { return c }
+	aq := c10AltQs(c.Qs2)
+	qs2 := c10SortedQs(c.Qs2)
+	one := func(g *c10Guarded) []*c10Guarded { return []*c10Guarded{g} }
+	// three of the presentations: one that makes Quantile sort a copy, one
+	// with sorted data filled in by hand (or a library Copy), one that the
+	// library sorted
+	var sel []*c10Guarded
+	for _, k := range []int{[]int{0, 3}[c.PermSeed>>50&1], []int{1, 2, 4}[c.PermSeed>>51%3], []int{5, 6}[c.PermSeed>>54&1]} {
+		if k < len(pres) {
+			sel = append(sel, pres[k])
+		}
+	}
+	for _, g := range sel {
+		ax, aw := d.arr(g.ak) // g holds the values ax (its weights are some valid pairing of d)
+		_, awA := dA.arr(g.ak)
+		c10WPhase(w, d, aq, one(g), whole, c10TagPrime)
+
+		// same Xs, new Weights
+		w.Hit("weights-only-overwrite(Xs untouched)")
+		g.loadW(awA)
+		c10WPhase(w, dA, qs2, one(g), whole, c10TagWOnly)
+
+		// a second value over the same Xs with the first weights; the two
+		// are queried in turn
+		w.Hit("shared-Xs-second-sample")
+		t := g.shareXs(g.name+", Xs slice shared", aw)
+		for r := 0; r < 2; r++ {
+			c10WPhase(w, d, aq, one(t), whole, c10TagShareX)
+			c10WPhase(w, dA, aq, one(g), whole, c10TagOwner)
+		}
+		// an unweighted value over the same Xs
+		w.Hit("shared-Xs-unweighted-view")
+		v := g.shareXs(g.name+", Xs slice shared, no Weights", nil)
+		c10UPhase(w, du, aq, one(v), whole, c10TagUView)
+		c10WPhase(w, dA, aq, one(g), whole, c10TagOwner)
+
+		// same Weights, new Xs (ascending where the flag says so)
+		w.Hit("xs-only-overwrite(Weights untouched)")
+		nx := xs2
+		if g.s.Sorted {
+			nx = sx2
+		}
+		dB := c10BuildWData(nx, awA, dA.strict, c.PermSeed)
+		g.loadX(nx)
+		c10WPhase(w, dB, qs2, one(g), whole, c10TagXOnly)
+
+		// a second value over the same Weights with the first values
+		w.Hit("shared-Weights-second-sample")
+		u := g.shareWs(g.name+", Weights slice shared", ax)
+		for r := 0; r < 2; r++ {
+			c10WPhase(w, dA, aq, one(u), whole, c10TagShareW)
+			c10WPhase(w, dB, aq, one(g), whole, c10TagOwner)
+		}
+	}
+	w.Distinct(mon.NewHasher().Fs(d.xs).Fs(d.ws).Fs(xs2).Fs(dA.ws).Fs(mon.Un(c.Qs)).Fs(qs2).I(c.Part).Sum())
+}
+
 func c10WPhase(w *mon.W, d *c10WData, qs []float64, pres []*c10Guarded, sub func(...float64) c10Case, tag string) {
 	n := len(d.xs)
 	wq := d.wq
 	rearm := func(g *c10Guarded) {
-		*g = *c10Present(g.name, append([]float64(nil), g.s.Xs...), append([]float64(nil), g.s.Weights...), g.sorted)
+		*g = *g.rearmed()
 	}
 	call := func(g *c10Guarded, q float64) (float64, bool) {
 		var got float64
@@ -697,6 +972,7 @@ func c10WPhase(w *mon.W, d *c10WData, qs []float64, pres []*c10Guarded, sub func
 			w.Note("weighted-ambiguous")
 		} else {
 			w.Note("weighted-unambiguous")
+			w.HitIf(q > 0 && q < 1 && d.besideCum(q), "weighted-q-beside-cum(outside window, within 1e-6)")
 		}
 		for _, g := range pres {
 			got, ok := call(g, q)
@@ -900,7 +1176,28 @@ func c10Near(rng *mon.Rand, q float64) float64 {
 	return q
 }
 
-// c10Qs builds the 40 query points of one unweighted sample.
+// c10Rung is a float 2^k ulps (k = 0..35) above or below the break point b
+// (0 < b < 1): the band between "a rounding error away" and "visibly away"
+// in which a comparison with a tolerance on h or on its fractional part acts.
+func c10Rung(rng *mon.Rand, b float64) float64 {
+	step := uint64(1) << uint(rng.Intn(36))
+	if rng.Bool() {
+		return math.Float64frombits(math.Float64bits(b) + step)
+	}
+	return math.Float64frombits(math.Float64bits(b) - step)
+}
+
+// c10WRung is a point beside the cumulative-weight fraction f, outside the
+// ambiguity window rel: at distance 2 rel 2^k, k = 0..19 (about 2e-12 .. 1e-6).
+func c10WRung(rng *mon.Rand, f, rel float64) float64 {
+	d := math.Ldexp(2*rel, rng.Intn(20))
+	if rng.Intn(3) != 0 { // below: the cumulative weight there does exceed q W
+		return f - d
+	}
+	return f + d
+}
+
+// c10Qs builds the 44 query points of one unweighted sample.
 func c10Qs(rng *mon.Rand, n int) []float64 {
 	qs := []float64{0, 1, 0.25, 0.75, 0.5, -0.5, 1.5,
 		math.Nextafter(0, 1), math.Nextafter(0, -1), math.Nextafter(1, 0), math.Nextafter(1, 2),
@@ -912,10 +1209,14 @@ func c10Qs(rng *mon.Rand, n int) []float64 {
 	for k := 0; k < 8; k++ {
 		b, _ := ref.BreakQ(n, 1+rng.Intn(n))
 		qs = append(qs, c10Near(rng, b))
+		if k < 4 {
+			qs = append(qs, c10Rung(rng, b))
+		}
 	}
+	qs = append(qs, c10Rung(rng, b1), c10Rung(rng, bn))
 	// inside the clamp regions 0<q<q_1 and q_n<q<1
 	qs = append(qs, b1*rng.Float64(), b1*rng.Float64(), bn+(1-bn)*rng.Float64(), bn+(1-bn)*rng.Float64())
-	for len(qs) < 40 {
+	for len(qs) < 44 {
 		qs = append(qs, rng.Float64())
 	}
 	return qs
@@ -956,7 +1257,7 @@ func c10ShortQs(rng *mon.Rand, n int) []float64 {
 	qs := []float64{rng.Float64(), 0.5, 0.25, 0.75, 0, 1, rng.Uniform(-0.5, 0), 1 + rng.Uniform(0, 0.5) + 1e-9}
 	for k := 0; k < 2; k++ {
 		b, _ := ref.BreakQ(n, 1+rng.Intn(n))
-		qs = append(qs, c10Near(rng, b))
+		qs = append(qs, c10Near(rng, b), c10Rung(rng, b))
 	}
 	for len(qs) < 12 {
 		qs = append(qs, rng.Float64())
@@ -965,11 +1266,14 @@ func c10ShortQs(rng *mon.Rand, n int) []float64 {
 }
 
 func c10Run(r *mon.Run) {
-	r.Rule("random: samples of n=1..200 (sizes 1,2,3 / 5,21,85 / 198..200 forced on fixed index residues) from 13 value families (repeats, all-equal, two-valued, offsets 1e3..1e12, magnitudes 1e-300..1e300, subnormal, +-1e307, same-sign 1e307..MaxFloat64, pre-sorted, descending) x 40 q (0, 1, quartiles, +-1ulp around 0 and 1, q<0, q>1, nearest float to break points (3j-1)/(3n+1) and its neighbours incl. both clamp boundaries, inside both clamp regions, uniform); every q on 4 presentations (given order, second permutation, sorted with Sorted=true, sorted with Sorted=false) + IQR on each. breaks: every n=1..200 x every break point j=1..n x {nearest float, +-1ulp}. exhaustive: all sequences over a 3 (thorough 4) letter alphabet up to length 5 (thorough 7), i.e. all permutations of all such multisets. weighted: n=1..200, integer/unit/real/dyadic/dominant weights, values with and without ties, q at cumulative-weight fractions (ambiguity window), 1e-9 beside them, and uniform; a third of the weight vectors times 2^+-40 or 2^+-200. reuse / reuse-weighted: 12 q on 4 presentations, then the same 4 backing arrays overwritten in place with another sample of the same length (other weights and scale) and 12 q again, then the two samples alternating twice through each buffer (3 q + IQR directly after each overwrite). empty: 8 variants x 11 q. Non-trivial = hits a class; distinct by hash of (xs,ws,qs).")
+	r.Rule("random: samples of n=1..200 (sizes 1,2,3 / 5,21,85 / 198..200 forced on fixed index residues) from 13 value families (repeats, all-equal, two-valued, offsets 1e3..1e12, magnitudes 1e-300..1e300, subnormal, +-1e307, same-sign 1e307..MaxFloat64, pre-sorted, descending) x 44 q (0, 1, quartiles, +-1ulp around 0 and 1, q<0, q>1, nearest float to break points (3j-1)/(3n+1) and its neighbours incl. both clamp boundaries, 6 points 2^k ulp (k=0..35) beside break points, inside both clamp regions, uniform); every q on 7 presentations (given order, second permutation, sorted with Sorted=true, sorted with Sorted=false; library Copy(), library Copy()+Sort(), hand-built sample after its own Sort()) + IQR on each. breaks: every n=1..200 x every break point j=1..n x {nearest float, +-1ulp} and for a quarter of them one point 2^k ulp away. exhaustive: all sequences over a 3 (thorough 4) letter alphabet up to length 5 (thorough 7), i.e. all permutations of all such multisets. weighted: n=1..200, integer/unit/real/dyadic/dominant weights, values with and without ties, q at cumulative-weight fractions (ambiguity window), 1e-9 beside them, 2 rel 2^k (k=0..19) beside them, and uniform; a third of the weight vectors times 2^+-40 or 2^+-200. reuse / reuse-weighted: 12 q on 7 presentations, then the same 7 backing arrays overwritten in place with another sample of the same length (other weights and scale) and 12 q again, then the two samples alternating twice through each buffer (3 q + IQR directly after each overwrite). partial / partial-serial (weighted, 3 of the presentations): Weights array alone overwritten, second Sample values sharing the Xs slice (other Weights; none), Xs array alone overwritten, second Sample value sharing the Weights slice; owner and sharer queried in turn. empty: 8 variants x 11 q. Non-trivial = hits a class; distinct by hash of (xs,ws,qs).")
 	r.Assume("sample values finite with |x|<=1e307, or all of one sign up to MaxFloat64 (gaps between order statistics do not overflow); weights positive and finite; NaN/Inf q, NaN data, negative or zero weights, len(Weights)!=len(Xs) and Sorted=true on unsorted data are outside the statement",
 		"unweighted tolerance 16 eps ((h+1) G + M) + 4e-323: G largest gap of the segment and its neighbours, M largest magnitude of the order statistics involved; containment in [min,max] and in the bracketing order statistics (h +- 16 eps (h+1)) is exact",
 		"weighted ambiguity window (1e-12 + 16 n eps) W around every cumulative weight: both neighbouring values accepted")
-	r.Gate("huge-same-sign(|x|>1e307)", "equal-neighbours(exact answer)", "buffer-reuse(in-place overwrite)", "buffer-alternation", "buffer-reuse-weighted(in-place overwrite)",
+	r.Gate("library-built(Copy)", "library-built(Copy+Sort)", "library-built(Sort in place)",
+		"weights-only-overwrite(Xs untouched)", "xs-only-overwrite(Weights untouched)", "shared-Xs-second-sample", "shared-Weights-second-sample", "shared-Xs-unweighted-view",
+		"q-near-break(2..2^35 ulp)", "weighted-q-beside-cum(outside window, within 1e-6)",
+		"huge-same-sign(|x|>1e307)", "equal-neighbours(exact answer)", "buffer-reuse(in-place overwrite)", "buffer-alternation", "buffer-reuse-weighted(in-place overwrite)",
 		"weights-scaled-down(2^-40|2^-200)", "weights-scaled-up(2^40|2^200)", "weighted-IQR-exact-tie-judged-strictly",
 		"weighted-exact-tie-judged-strictly", "q-at-break(+-1ulp)", "h-exact-integer", "q<0", "q>1", "q=0|1", "n=1", "n=2", "n>=150", "clamp-low(h<1)", "clamp-high(h>=n)",
 		"repeats", "all-equal", "unsorted-input", "empty",
@@ -1001,6 +1305,9 @@ func c10Run(r *mon.Run) {
 		for j := 1; j <= n; j++ {
 			b, _ := ref.BreakQ(n, j)
 			qs = append(qs, b, math.Nextafter(b, 2), math.Nextafter(b, -1))
+			if n <= 4 || rng.Intn(4) == 0 {
+				qs = append(qs, c10Rung(rng, b))
+			}
 		}
 		c10Judge(w, c10Case{Xs: mon.Fs(xs), Qs: mon.Fs(qs), PermSeed: rng.Uint64()})
 	})
@@ -1026,7 +1333,7 @@ func c10Run(r *mon.Run) {
 		qs := []float64{0, 1, 0.25, 0.5, 0.75, -0.5, 1.5}
 		for j := 1; j <= s.n; j++ {
 			b, _ := ref.BreakQ(s.n, j)
-			qs = append(qs, b, math.Nextafter(b, 2), math.Nextafter(b, -1))
+			qs = append(qs, b, math.Nextafter(b, 2), math.Nextafter(b, -1), c10Rung(rng, b))
 		}
 		b1, _ := ref.BreakQ(s.n, 1)
 		bn, _ := ref.BreakQ(s.n, s.n)
@@ -1052,9 +1359,10 @@ func c10Run(r *mon.Run) {
 		wq := ref.NewWQ(xs, ws) // cumulative-weight fractions do not depend on the scale
 		qs := []float64{0, 1, 0.25, 0.5, 0.75, -0.5, 1.5, rng.Uniform(-0.5, 0), 1 + rng.Uniform(0, 0.5) + 1e-9,
 			math.Nextafter(0, 1), math.Nextafter(1, 0), 1e-300}
+		rel := 1e-12 + 16*float64(n)*c10Eps
 		for k := 0; k < 6; k++ {
 			f := wq.CumQ(rng.Intn(len(wq.Vals)))
-			qs = append(qs, c10Near(rng, f), f-1e-9, f+1e-9)
+			qs = append(qs, c10Near(rng, f), f-1e-9, f+1e-9, c10WRung(rng, f, rel))
 		}
 		for len(qs) < 40 {
 			qs = append(qs, rng.Float64())
@@ -1086,6 +1394,31 @@ func c10Run(r *mon.Run) {
 		c10Judge(w, c10Case{Xs: mon.Fs(xs), Ws: mon.Fs(ws), WExp: c10WExp(rng), Weighted: true, Qs: mon.Fs(c10ShortQs(rng, n)),
 			Xs2: mon.Fs(xs2), Ws2: mon.Fs(ws2), WExp2: c10WExp(rng), Qs2: mon.Fs(c10ShortQs(rng, n)), Alt: 2, PermSeed: rng.Uint64()})
 	})
+
+	// partial histories: one of the two arrays overwritten, slices shared
+	// between Sample values. Once on the worker pool and once on a single
+	// goroutine (nothing else calls the library in between two steps).
+	partial := func(w *mon.W, i int) {
+		rng := w.Rng
+		n := c10N(rng, i)
+		if n == 1 {
+			n = 2 + rng.Intn(30)
+		}
+		fams := []int{0, 8, 5, 1, 2, 3, 7, 11, 12}
+		xs, xs2 := c10Values(rng, n, fams[rng.Intn(len(fams))]), c10Values(rng, n, fams[rng.Intn(len(fams))])
+		ws, ws2 := c10Weights(rng, n, rng.Intn(6)), c10Weights(rng, n, rng.Intn(6))
+		qs2 := c10ShortQs(rng, n)[:8]
+		wq := ref.NewWQ(xs, ws2)
+		rel := 1e-12 + 16*float64(n)*c10Eps
+		for k := 0; k < 2; k++ {
+			f := wq.CumQ(rng.Intn(len(wq.Vals)))
+			qs2 = append(qs2, c10Near(rng, f), c10WRung(rng, f, rel))
+		}
+		c10Judge(w, c10Case{Xs: mon.Fs(xs), Ws: mon.Fs(ws), WExp: c10WExp(rng), Weighted: true, Qs: mon.Fs(c10ShortQs(rng, n)[:6]),
+			Xs2: mon.Fs(xs2), Ws2: mon.Fs(ws2), WExp2: c10WExp(rng), Qs2: mon.Fs(qs2), Part: 1, PermSeed: rng.Uint64()})
+	}
+	r.Parallel("partial", r.Pick(450, 6000), partial)
+	r.Serial("partial-serial", r.Pick(150, 1500), partial)
 
 	// empty samples
 	r.Exhaustive("empty sample: Xs nil/empty x Weights nil/empty x Sorted, 11 q")
